@@ -311,126 +311,139 @@ func tableSequence(o *Out, r *rand.Rand, seqNo, nOps int) {
 	for op := 0; op < nOps; op++ {
 		_, before := ts.snapshot()
 		c := r.Intn(100)
-		switch {
-		case c < 45: // add found / inbound
-			k := pickRec()
-			inbound, live := r.Intn(3) == 0, r.Intn(2) == 0
-			if inbound {
-				live = false
-			}
-			ok := tab.VerifAddNode(recs[k].node, inbound, live)
-			snap, _ := ts.snapshot()
-			o.Case(fmt.Sprintf("add r%d inbound=%d live=%d", k, b2i(inbound), b2i(live)), fmt.Sprintf("ret=%d %s", b2i(ok), snap))
-		case c < 51: // delete
-			es := entryIDs()
-			var k int
-			if len(es) > 0 && r.Intn(5) != 0 {
-				k = recOfID(es[r.Intn(len(es))])
-			} else {
-				k = pickRec()
-			}
-			tab.VerifDeleteNode(recs[k].node)
-			snap, after := ts.snapshot()
-			o.Case(fmt.Sprintf("del r%d rnd=%d", k, promotedIndex(before, after)), snap)
-		case c < 72: // revalidation timer: advance the clock, run, collect what was started
-			now += time.Duration(1+r.Intn(4)) * time.Second
-			clock.Run(time.Duration(1+r.Intn(4)) * time.Second)
-			// script the answers of every node before anything is pinged
-			tr.mu.Lock()
-			for _, id := range ids {
-				a := pingAnswer{respond: r.Intn(10) < 6}
-				if a.respond {
-					a.seq = uint64(1 + r.Intn(4))
+		panicked := false
+		func() {
+			// "No such sequence makes a table operation panic": a panic is an outcome, reported with the operation
+			defer func() {
+				if rec := recover(); rec != nil {
+					panicked = true
+					o.Case(fmt.Sprintf("tabpanic op=%d kind=%d", op, c), "panic:"+strings.ReplaceAll(fmt.Sprint(rec), " ", "_"))
 				}
-				tr.answer[id] = a
-			}
-			tr.mu.Unlock()
-			// choose the new record (if the node will announce a higher seq) now, so that it can be declared first
-			newK := map[int]int{}
-			for _, e := range entryIDs() {
-				if e < nIds && r.Intn(3) == 0 {
-					k := newRec(e)
-					newK[e] = k
-					tr.mu.Lock()
-					a := tr.answer[ids[e]]
-					a.rec = recs[k].node
-					tr.answer[ids[e]] = a
-					tr.mu.Unlock()
+			}()
+			switch {
+			case c < 45: // add found / inbound
+				k := pickRec()
+				inbound, live := r.Intn(3) == 0, r.Intn(2) == 0
+				if inbound {
+					live = false
 				}
-			}
-			tab.VerifRevalRun(clock.Now())
-			var started []string
-			var fresh []pending
-			// every request that was started is in activeReq; wait for exactly those answers
-			want := len(tab.VerifSnapshot().ActiveReq) - len(pend)
-			for w := 0; w < want; w++ {
-				resp := tab.VerifNextRevalResponse(20 * time.Second)
-				if resp == nil {
-					panic("revalidation request did not answer")
+				ok := tab.VerifAddNode(recs[k].node, inbound, live)
+				snap, _ := ts.snapshot()
+				o.Case(fmt.Sprintf("add r%d inbound=%d live=%d", k, b2i(inbound), b2i(live)), fmt.Sprintf("ret=%d %s", b2i(ok), snap))
+			case c < 51: // delete
+				es := entryIDs()
+				var k int
+				if len(es) > 0 && r.Intn(5) != 0 {
+					k = recOfID(es[r.Intn(len(es))])
+				} else {
+					k = pickRec()
 				}
-				<-tr.pinged
-				idx := ts.idIdx[resp.ID()]
-				nk := -1
-				if resp.NewRecord() != nil {
-					nk = newK[idx]
-				}
-				fresh = append(fresh, pending{resp, idx, nk})
-			}
-			// the two requests of one run answer in either order: canonicalise
-			sort.Slice(fresh, func(a, b int) bool { return fresh[a].idIdx < fresh[b].idIdx })
-			for _, f := range fresh {
-				pend = append(pend, f)
-				started = append(started, "i"+strconv.Itoa(f.idIdx))
-			}
-			snap, _ := ts.snapshot()
-			o.Case("revalstart "+strings.Join(append([]string{"ids=-"}, started...), ","), snap)
-		case c < 88: // deliver one pending revalidation answer (any order)
-			if len(pend) == 0 {
-				continue
-			}
-			i := r.Intn(len(pend))
-			p := pend[i]
-			pend = append(pend[:i], pend[i+1:]...)
-			tab.VerifHandleRevalResponse(p.resp)
-			snap, after := ts.snapshot()
-			nr := "-"
-			if p.newK >= 0 {
-				nr = "r" + strconv.Itoa(p.newK)
-			}
-			o.Case(fmt.Sprintf("revalresp i%d responded=%d newrec=%s rnd=%d", p.idIdx, b2i(p.resp.DidRespond()), nr, promotedIndex(before, after)), snap)
-		default: // lookup feedback
-			es := entryIDs()
-			var k int
-			if len(es) > 0 && r.Intn(4) != 0 {
-				// favour a few nodes so that failure counts reach the limit
-				k = recOfID(es[r.Intn(1+len(es)/6)])
-			} else {
-				k = pickRec()
-			}
-			success := r.Intn(4) == 0
-			var found []*enode.Node
-			var fs []string
-			if success || r.Intn(3) == 0 {
-				for j := 0; j < r.Intn(4); j++ {
-					fk := pickRec()
-					found = append(found, recs[fk].node)
-					fs = append(fs, "r"+strconv.Itoa(fk))
-				}
-			}
-			if !success {
-				found, fs = nil, nil
-			}
-			reps := 1
-			if !success && r.Intn(4) == 0 {
-				reps = 3 + r.Intn(4) // consecutive fruitless queries against the same node
-			}
-			for rep := 0; rep < reps; rep++ {
-				_, before = ts.snapshot()
-				tab.VerifHandleTrackRequest(recs[k].node, success && len(found) > 0, found)
-				fails := tab.VerifFindFails(recs[k].node)
+				tab.VerifDeleteNode(recs[k].node)
 				snap, after := ts.snapshot()
-				o.Case(fmt.Sprintf("track r%d success=%d fails=%d rnd=%d found=%s", k, b2i(success && len(found) > 0), fails, promotedIndex(before, after), strings.Join(append([]string{"-"}, fs...), ",")), snap)
+				o.Case(fmt.Sprintf("del r%d rnd=%d", k, promotedIndex(before, after)), snap)
+			case c < 72: // revalidation timer: advance the clock, run, collect what was started
+				now += time.Duration(1+r.Intn(4)) * time.Second
+				clock.Run(time.Duration(1+r.Intn(4)) * time.Second)
+				// script the answers of every node before anything is pinged
+				tr.mu.Lock()
+				for _, id := range ids {
+					a := pingAnswer{respond: r.Intn(10) < 6}
+					if a.respond {
+						a.seq = uint64(1 + r.Intn(4))
+					}
+					tr.answer[id] = a
+				}
+				tr.mu.Unlock()
+				// choose the new record (if the node will announce a higher seq) now, so that it can be declared first
+				newK := map[int]int{}
+				for _, e := range entryIDs() {
+					if e < nIds && r.Intn(3) == 0 {
+						k := newRec(e)
+						newK[e] = k
+						tr.mu.Lock()
+						a := tr.answer[ids[e]]
+						a.rec = recs[k].node
+						tr.answer[ids[e]] = a
+						tr.mu.Unlock()
+					}
+				}
+				tab.VerifRevalRun(clock.Now())
+				var started []string
+				var fresh []pending
+				// every request that was started is in activeReq; wait for exactly those answers
+				want := len(tab.VerifSnapshot().ActiveReq) - len(pend)
+				for w := 0; w < want; w++ {
+					resp := tab.VerifNextRevalResponse(20 * time.Second)
+					if resp == nil {
+						panic("revalidation request did not answer")
+					}
+					<-tr.pinged
+					idx := ts.idIdx[resp.ID()]
+					nk := -1
+					if resp.NewRecord() != nil {
+						nk = newK[idx]
+					}
+					fresh = append(fresh, pending{resp, idx, nk})
+				}
+				// the two requests of one run answer in either order: canonicalise
+				sort.Slice(fresh, func(a, b int) bool { return fresh[a].idIdx < fresh[b].idIdx })
+				for _, f := range fresh {
+					pend = append(pend, f)
+					started = append(started, "i"+strconv.Itoa(f.idIdx))
+				}
+				snap, _ := ts.snapshot()
+				o.Case("revalstart "+strings.Join(append([]string{"ids=-"}, started...), ","), snap)
+			case c < 88: // deliver one pending revalidation answer (any order)
+				if len(pend) == 0 {
+					return
+				}
+				i := r.Intn(len(pend))
+				p := pend[i]
+				pend = append(pend[:i], pend[i+1:]...)
+				tab.VerifHandleRevalResponse(p.resp)
+				snap, after := ts.snapshot()
+				nr := "-"
+				if p.newK >= 0 {
+					nr = "r" + strconv.Itoa(p.newK)
+				}
+				o.Case(fmt.Sprintf("revalresp i%d responded=%d newrec=%s rnd=%d", p.idIdx, b2i(p.resp.DidRespond()), nr, promotedIndex(before, after)), snap)
+			default: // lookup feedback
+				es := entryIDs()
+				var k int
+				if len(es) > 0 && r.Intn(4) != 0 {
+					// favour a few nodes so that failure counts reach the limit
+					k = recOfID(es[r.Intn(1+len(es)/6)])
+				} else {
+					k = pickRec()
+				}
+				success := r.Intn(4) == 0
+				var found []*enode.Node
+				var fs []string
+				if success || r.Intn(3) == 0 {
+					for j := 0; j < r.Intn(4); j++ {
+						fk := pickRec()
+						found = append(found, recs[fk].node)
+						fs = append(fs, "r"+strconv.Itoa(fk))
+					}
+				}
+				if !success {
+					found, fs = nil, nil
+				}
+				reps := 1
+				if !success && r.Intn(4) == 0 {
+					reps = 3 + r.Intn(4) // consecutive fruitless queries against the same node
+				}
+				for rep := 0; rep < reps; rep++ {
+					_, before = ts.snapshot()
+					tab.VerifHandleTrackRequest(recs[k].node, success && len(found) > 0, found)
+					fails := tab.VerifFindFails(recs[k].node)
+					snap, after := ts.snapshot()
+					o.Case(fmt.Sprintf("track r%d success=%d fails=%d rnd=%d found=%s", k, b2i(success && len(found) > 0), fails, promotedIndex(before, after), strings.Join(append([]string{"-"}, fs...), ",")), snap)
+				}
 			}
+		}()
+		if panicked {
+			break // the table's state after a panic (mutex possibly held) is undefined: end this sequence
 		}
 	}
 	tab.VerifCloseNoLoop()
